@@ -137,7 +137,39 @@ def elem_desc(H, e, fn, env, local_defs, depth=0):
             return "merkle_root(%s)" % show_rep(r)
     if isinstance(e, ast.Call) and isinstance(e.func, ast.Attribute) and e.func.attr in ("digest",) and isinstance(e.func.value, ast.Call):
         return "a computed hash: %s" % norm(e)
+    if isinstance(e, ast.Call) and depth < 6:
+        inl = _inline_call(H, e, fn, env)
+        if inl is not None:
+            ret, t, env2, ld = inl
+            return elem_desc(H, ret, t, env2, ld, depth + 1)
     return "?" + norm(e)
+
+
+def _inline_call(H, e, fn, env):
+    """A call of a package helper with one return statement and nothing but simple assignments before it (possibly memoised
+    by a standard-library decorator): (return expression, helper, environment with the parameters bound to the normal
+    forms of the arguments, local definitions)."""
+    ctx = H.ctx
+    tg = [t for t in C.targets_of(ctx, fn, e)]
+    if len(tg) != 1:
+        return None
+    t = tg[0]
+    rets = [n for n in own_nodes(t.node) if isinstance(n, ast.Return) and n.value is not None]
+    if len(rets) != 1 or t.is_generator:
+        return None
+    if any(isinstance(n, (ast.For, ast.While, ast.Try, ast.With, ast.Global, ast.Nonlocal)) for n in own_nodes(t.node)):
+        return None
+    params = [p_ for p_ in t.params if p_ != t.self_name]
+    if len(e.args) != len(params) or e.keywords:
+        return None
+    sub_env = {}
+    for p_, a in zip(params, e.args):
+        v = H.nf(a, fn, env)
+        if v is None:
+            return None
+        sub_env[p_] = v
+    ld, env2 = env_at(H, t, rets[0], sub_env)
+    return rets[0].value, t, env2, ld
 
 
 def show_rep(r):
